@@ -36,6 +36,7 @@ type c01Case struct {
 	Method   string   `json:"method"`
 	Sealed   bool     `json:"sealed"`
 	Other    bool     `json:"other_user"` // request a certificate for another user name
+	KeyKind  string   `json:"key_kind,omitempty"` // p256 (default) | ed25519 | rsa2048
 }
 
 const (
@@ -98,6 +99,7 @@ func c01World(sealed bool) *vWorld {
 		Users:           map[string]string{vUserAlice: vPwAlice, vUserBob: "bob-pw", vUserRobot: "robot-pw"},
 		AutomationUsers: []string{vUserRobot},
 		NoDB:            true,
+		Ed25519CA:       true,
 		ForeignPeerKey:  true,
 		DenyFPs:         []string{vDeniedFP()},
 	})
@@ -121,12 +123,16 @@ func c01Check(c c01Case) *vResult {
 	if c.Other {
 		target = "/certgen/" + vUserBob
 	}
-	pub := vSSHAuthorizedKey(vKey("p256", "c01user").Public())
+	keyKind := c.KeyKind
+	if keyKind == "" {
+		keyKind = "p256"
+	}
+	pub := vSSHAuthorizedKey(vKey(keyKind, "c01user").Public())
 	certType := c.CertType
 	if certType != "" {
 		target += "?type=" + certType
 		if certType != "ssh" {
-			pub = vPEMPublicKey(vKey("p256", "c01user").Public())
+			pub = vPEMPublicKey(vKey(keyKind, "c01user").Public())
 		}
 	}
 	dur := "1h"
@@ -139,6 +145,8 @@ func c01Check(c c01Case) *vResult {
 	res.NonTrivial = proven.Bits != 0 && len(c.Config) > 0
 	res.label("verdict:"+verdict, "why:"+why, "cred:"+c.Cred.Kind)
 
+	// sealed: the main signer is absent. The Ed25519 signer may be present: a
+	// failed unseal attempt loads it before the main signer is checked.
 	signer := w.state.Signer
 	if c.Sealed {
 		w.state.Mutex.Lock()
@@ -214,6 +222,7 @@ func c01Gen(t *rapid.T) c01Case {
 	c.CertType = rapid.SampledFrom([]string{"ssh", "ssh", "x509", "x509", "x509-kubernetes", "", "bogus", "SSH"}).Draw(t, "type")
 	c.Method = rapid.SampledFrom([]string{"POST", "POST", "POST", "POST", "GET", "PUT", "DELETE"}).Draw(t, "method")
 	c.Sealed = rapid.IntRange(0, 9).Draw(t, "sealed") == 0
+	c.KeyKind = rapid.SampledFrom([]string{"p256", "p256", "ed25519", "rsa2048"}).Draw(t, "keyKind")
 	c.Other = rapid.IntRange(0, 9).Draw(t, "other") == 0
 	return c
 }
